@@ -21,6 +21,10 @@ def run(ctx):
     effect_scan(ctx, 'R-EFF-NAMED', [r for r in EFF_LEAK if r[0].startswith('tempfile')], what='persistent temp files')
     txn_provenance(ctx)
     statics_rule(ctx)
+    # state kept in the Writer / Reader values themselves (interior mutability) survives an aborted or killed transaction just
+    # like a file would: C08's freeze rule
+    from props.C08 import freeze_rule
+    freeze_rule(ctx)
     # "that state opens, passes the structural checks of C01 and answers queries as in C02": the committed state a crash can
     # expose is whatever a writer leaves in its transaction, so the staleness protocol (C06) and the forest disciplines (C01)
     # are re-evaluated here rather than assumed
